@@ -54,6 +54,13 @@ func (f *Frame) instr(ins ssa.Instruction) {
 		tag := e.S.tagOf(t)
 		v := f.get(x.X)
 		so := e.S.sortOf(t)
+		if _, isPtr := t.Underlying().(*types.Pointer); isPtr && isCallResult(x.X) && f.top && e.con != nil && !e.con.SafetyOff["typednil"] && f.inRepoPointer(t) {
+			// the engine assumes that interfaces never hold typed-nil pointers; that is
+			// checked where a pointer returned by a call (a lookup that may find nothing)
+			// becomes an interface value; pointers read from the AST are covered by the
+			// assumption. Not switched off by a plain `nosafety`.
+			e.addObl("typednil", f.exprText(x.X), f.curReach, fmt.Sprintf("(not (= %s 0))", v.T), x.Pos(), "a pointer converted to an interface value is not nil", append([]string{"C06"}, f.props()...))
+		}
 		if so == "Int" {
 			f.def(x, fmt.Sprintf("(mk_iface %d %s)", tag, v.T))
 		} else {
@@ -1196,4 +1203,29 @@ func (f *Frame) zeroGhostFields(t types.Type, ref string) {
 func isEmptyStruct(t types.Type) bool {
 	st, ok := t.Underlying().(*types.Struct)
 	return ok && st.NumFields() == 0
+}
+
+// inRepoPointer: pointer to a named type declared in /repo (AST nodes, values ...).
+func (f *Frame) inRepoPointer(t types.Type) bool {
+	pt, ok := t.Underlying().(*types.Pointer)
+	if !ok {
+		return false
+	}
+	nt, ok := types.Unalias(pt.Elem()).(*types.Named)
+	if !ok || nt.Obj().Pkg() == nil {
+		return false
+	}
+	return strings.HasPrefix(nt.Obj().Pkg().Path(), repoModule)
+}
+
+// isCallResult: v is the (possibly extracted) result of a call.
+func isCallResult(v ssa.Value) bool {
+	switch x := v.(type) {
+	case *ssa.Call:
+		return true
+	case *ssa.Extract:
+		_, ok := x.Tuple.(*ssa.Call)
+		return ok
+	}
+	return false
 }
